@@ -10,3 +10,5 @@ import GontainerModel.Props.C07
 #print axioms GM.C07.param_eval_terminates_partial
 #print axioms GM.C07.param_eval_terminates_acyclic
 #print axioms GM.C07.rank_le_nodes
+#print axioms GM.C07.compiled_params_recorded
+#print axioms GM.C07.param_eval_terminates
